@@ -162,7 +162,13 @@ def check(model, R, tier):
             R.ob('C12.ORDER', f.qualname, norm(stores[0]), norm(key) == f.pos_params[1] and norm(val) == f.pos_params[2], 'the registry entry must be name -> value as given', f.loc)
     sub = model.func(MOD + '.submodules')
     rets = [n for n in body_walk(sub.node) if isinstance(n, ast.Return)]
-    ok = len(rets) == 1 and norm(rets[0].value) in ('[m for m in self._submodules.values()]', 'list(self._submodules.values())')
+    rv = inline_expr(sub.node, rets[0].value) if len(rets) == 1 else None
+    ok = False
+    if rv is not None:
+        if isinstance(rv, ast.Call) and dotted(rv.func) in ('list', 'tuple') and len(rv.args) == 1 and norm(rv.args[0]) == 'self._submodules.values()':
+            ok = True
+        if isinstance(rv, ast.ListComp) and len(rv.generators) == 1 and not rv.generators[0].ifs and norm(rv.generators[0].iter) == 'self._submodules.values()' and norm(rv.elt) == norm(rv.generators[0].target):
+            ok = True
     R.ob('C12.ORDER', sub.qualname, norm(rets[0].value) if rets else 'no return', ok, 'submodules() must list every registered submodule in registration order', sub.loc)
     # ---------------------------------------------------------------- ONCE
     R.rule('C12.ONCE', 'parameters() = own parameters, then each submodule\'s, each reported once: every extension of the returned list is guarded by an identity-membership test; '
